@@ -133,6 +133,10 @@ fn run_instance_via(seed: Option<u64>, err_rate: f64, lat_rate: f64, min: u64, m
             Err(_) => "inner_error",
         };
         out.push(Obs { result, reached_inner: reached, latency });
+        // transparent also means: the instance that is called is the one that said Ready
+        if let Some(v) = g.contract_violations.first() {
+            return Err(format!("request {i}: {v}"));
+        }
     }
     Ok(out)
 }
